@@ -8,7 +8,7 @@
    notifications, sync peer) of the connect phase, then the handler. *)
 From stdpp Require Import list list_numbers.
 From Coq Require Import ZArith Lia ZifyBool.
-From Verif Require Import S2.Model C01.Spec C02.Spec C02.SpecH S2.Basics S2.Invariant C01.Proofs C02.Proofs.
+From Verif Require Import S2.Model C01.Spec C02.Spec C02.SpecH C02.Truncated S2.Basics S2.Invariant C01.Proofs C02.Proofs.
 Open Scope Z_scope.
 
 (* ---------- reorg_check accepts every fully valid branch ---------- *)
@@ -533,3 +533,63 @@ Qed.
 Lemma listened_to_obs P now s p :
   listened_to P now (obs_state (chain s) (syncPeer s) (peers s)) p = listened_to P now s p.
 Proof. apply listened_to_ext; [reflexivity|reflexivity|]. intros q _. split; reflexivity. Qed.
+
+(* ---------- the monitor's test for the conditions of a reorganisation ---------- *)
+Section MonitorReorg.
+Context (P : params) (U : header -> Prop) (T : Z -> Prop).
+Hypothesis HU : universe P U.
+Hypothesis HP : wf_params P.
+
+Lemma Trans_reorg_conditions_b now before tl msg after :
+  ChainOK P U T before tl -> T now -> Forall U msg -> zlen before + zlen msg <= LIMIT ->
+  Trans P now before msg after -> reorg_conditions_b P now before after msg = true.
+Proof.
+  intros Hok HT HUm Hlim HTr. unfold reorg_conditions_b.
+  destruct HTr as [->|skip run -> Hk Hrne Hav ->|skip run -> Hk Hc|skip bh rest backHead backH mid -> Hk Hr ->].
+  - rewrite common_prefix_refl, drop_all. done.
+  - rewrite common_prefix_app, drop_all. done.
+  - destruct Hc as (ext & x & rest & -> & _ & _ & _ & ->).
+    set (n := Z.to_nat _).
+    assert (Hcp : common_prefix before (take n before) = take n before).
+    { rewrite <- (take_drop n before) at 1. apply common_prefix_app_l. }
+    rewrite Hcp, (drop_all (take n before)). by destruct (drop _ before).
+  - destruct Hr as (R1 & R2 & R3 & R4 & R5 & R6 & R7 & ->).
+    set (p := take (Z.to_nat (backH + 1)) before) in *. set (d := drop (Z.to_nat (backH + 1)) before) in *.
+    assert (Hzp : zlen p = backH + 1) by (subst p; apply zlen_take; lia).
+    destruct d as [|d0 d'] eqn:Ed.
+    { apply (f_equal length) in Ed. subst d. rewrite drop_length in Ed. unfold zlen in R2. cbn in Ed. lia. }
+    assert (Hbefore : before = p ++ d0 :: d') by (rewrite <- Ed; subst p d; by rewrite take_drop).
+    assert (Hd0 : hid d0 <> hid bh).
+    { intros Heq. apply R4. rewrite <- Heq. apply elem_of_list_fmap_1. rewrite Hbefore. apply elem_of_app. right. left. }
+    assert (Hncp : cp_height_b P (backH + 1) = false).
+    { destruct (cp_height_b P (backH + 1)) eqn:E; [|done]. apply cp_height_b_iff in E as [chash Hin].
+      pose proof (no_cp_between P HP before backH _ R5 Hin). cbn in *. lia. }
+    rewrite zlen_snoc, Hzp. replace (backH + 1 + 1 - 1) with (backH + 1) by lia.
+    rewrite <- app_assoc. cbn [app].
+    set (u := upto_cp P (backH + 1) rest).
+    assert (Hcpf : common_prefix before (p ++ bh :: u) = p) by (rewrite Hbefore at 1; by apply common_prefix_split).
+    assert (Hdrop : drop (length p) before = d0 :: d') by (rewrite Hbefore at 1; apply drop_app).
+    assert (Hoff : from_hid (hid bh) (skip ++ bh :: rest) = bh :: rest).
+    { apply from_hid_skip; [|done]. intros y Hy Heq. apply R4. rewrite <- Heq. by apply Hk. }
+    unfold offered_branch. rewrite Hcpf, Hdrop, drop_app, Hoff.
+    apply Forall_app in HUm as [_ HUb].
+    destruct (ChainOK_take P U T before tl (backH + 1) Hok ltac:(lia)) as [tl2 Htl2]. fold p in Htl2.
+    repeat (apply andb_true_iff; split).
+    + rewrite all_valid_run by done. lia.
+    + eapply (all_valid_cps P U T HU); eauto. rewrite Hzp. rewrite zlen_app in Hlim. pose proof (zlen_nonneg skip). unfold zlen in *. lia.
+    + rewrite Hzp. replace (backH + 1 - 1) with backH by lia. rewrite upto_checkpoint_eq. cbn [upto_cp]. rewrite Hncp.
+      apply hdrs_eqb_refl.
+Qed.
+End MonitorReorg.
+
+Lemma monitor_reorg_conditions P gfh ops p now msg :
+  let o := OHeaders p now msg in
+  wf_params P -> no_collision P (ops ++ [o]) -> wf_hist P (ops ++ [o]) ->
+  let s := run P (init_state P gfh) ops in
+  reorg_conditions_b P now (chain s) (chain (step P s o)) msg = true.
+Proof.
+  intros o HP HU HW s. destruct (reach_step_hyps P gfh ops o HP HU HW) as (HUu & HI & Hwf & Hlim). fold s in HI, Hlim.
+  destruct (step_spec P _ _ HUu HP s o HI Hwf Hlim) as [_ Hr]. cbn [StepRel o] in Hr.
+  destruct (i_chain _ _ _ _ HI) as [tl Htl]. destruct Hwf as (HT & HUm & _).
+  by eapply Trans_reorg_conditions_b.
+Qed.
